@@ -124,13 +124,18 @@ func (r *Run) pkg(rel string) *packages.Package {
 
 // ---- loading ----
 
+// overlayFiles, when set (-overlay), replaces the content of the named source files for this run:
+// the checker's self-test analyses single-edit variants of /repo's working tree without copying it.
+var overlayFiles map[string][]byte
+
 func load(repo string, patterns []string) (*token.FileSet, []*packages.Package, map[string]*packages.Package, error) {
 	fset := token.NewFileSet()
 	cfg := &packages.Config{
 		Mode:  packages.LoadAllSyntax,
 		Dir:   repo,
 		Fset:  fset,
-		Tests: false,
+		Tests:   false,
+		Overlay: overlayFiles,
 		Env:   append(os.Environ(), "PATH=/opt/veriftools/go1.26.8/bin:"+os.Getenv("PATH"), "GOFLAGS=-mod=mod", "GOPROXY=off", "GOWORK=off", "GOSUMDB=off", "GOTOOLCHAIN=local"),
 	}
 	pkgs, err := packages.Load(cfg, patterns...)
